@@ -196,6 +196,8 @@ def check_C12(rep, known):
     import stages as _st
     engine.process_results(rep, [{'sc': {'kind': 'clone-guess'}}], [{'results': _st.clone_guess(), 'error': None}], [r'C12\.'], known)
     engine.process_results(rep, [{'sc': {'kind': 'parent-guess-chain'}}], [{'results': _st.parent_guess_chain(), 'error': None}], [r'C12\.'], known)
+    engine.process_results(rep, [{'sc': {'kind': 'clone-contents'}}], [{'results': _st.clone_contents(), 'error': None}], [r'C12\.'], known)
+    engine.process_results(rep, [{'sc': {'kind': 'substage-late-placeholder'}}], [{'results': _st.substage_late_placeholder(), 'error': None}], [r'C12\.'], known)
 
 
 def check_C17(rep, known):
@@ -211,6 +213,7 @@ def check_C17(rep, known):
     rec = {'sc': {'kind': 'optima'}}
     engine.process_results(rep, [rec], [{'results': splinem.optima(), 'error': None}], [r'C17\.'], known)
     engine.process_results(rep, [{'sc': {'kind': 'signal-order'}}], [{'results': splinem.signals_order(), 'error': None}], [r'C17\.'], known)
+    engine.process_results(rep, [{'sc': {'kind': 'spline-component-constraint'}}], [{'results': splinem.component_constraint(), 'error': None}], [r'C17\.'], known)
 
 
 def trace_job(rep, known):
@@ -375,6 +378,7 @@ def check_C13(rep, known):
 def check_C09(rep, known):
     import stages as _st
     engine.process_results(rep, [{'sc': {'kind': 'vector-interval-param'}}], [{'results': _st.vector_interval_param(), 'error': None}], [r'C09\.'], known)
+    engine.process_results(rep, [{'sc': {'kind': 'matrix-interval-param'}}], [{'results': _st.matrix_interval_param(), 'error': None}], [r'C09\.'], known)
     life_job(rep, [r'C09\.'], known)
     scen_job(rep, 'ScenShoot', 'C09', [r'C09\.', r'build', r'varmap'], known)
     # stages cloned from one template, each with its own parameter values (C12 family): every clone is the OCP with *its* values written in
